@@ -53,6 +53,10 @@ CLAIMS = {
          "Decides: every execution path from the run/call API to opcode handlers and builtins passes through a barrier that converts a recovered panic into the returned error; no goroutine / os.Exit / log.Fatal escape route in library code. "
          "Does not decide: that no builtin panics (the barriers hold them back; they surface as SystemError), nor the exception class delivered for an internal fault.",
          "DESIGN.md §4 C10"),
+ "C03": ("decision-table extraction by symbolic interpretation (AnalyzeName, AddDef, NameOp) against tables transcribed from CPython symtable.c/compile.c; statement-order and aliasing rules for AnalyzeChildBlock/EvalCode",
+         "Decides: the scope classification table (flags x block kind x enclosing sets -> scope), the definition table (AddDef), scope x context -> opcode family and index space (NameOp), child-block analysis on copies of the parent's sets, "
+         "cell/free slot layout agreement between compiler, closure builder and EvalCode. Does not decide: run-time lookup order in LOAD_NAME/LOAD_GLOBAL for a particular program (values), name mangling (unimplemented in gpython).",
+         "DESIGN.md §4 C03"),
 }
 _todo = "rules for this property are designed (DESIGN.md §4) but not yet implemented in this revision of the checker"
-NA = {p: _todo for p in ["C03","C07","C13","C14","C15","C16","C17"]}
+NA = {p: _todo for p in ["C07","C13","C14","C15","C16","C17"]}
